@@ -978,7 +978,10 @@ def check_iper(ctx, rep, what, xp, fp, xs, got, want, fper, fdisc, xper=None):
                     e = Fraction(f0) + t * d
                     disc = fper / 2 if fdisc is None else fdisc
                     exp = float(wrap(e, fper, disc))
-                    okk = (not isnan(g)) and angdiff(g, exp, fper) <= 1e-9 * fper and disc - fper - 1e-9 <= g <= disc + 1e-9
+                    # the range [disc - P, disc) is promised for direction data (and is the documented meaning of
+                    # fp_discont in a direct call); longitudes only have to come back as an equivalent angle
+                    in_range = disc - fper - 1e-9 <= g <= disc + 1e-9
+                    okk = (not isnan(g)) and angdiff(g, exp, fper) <= 1e-9 * fper and (in_range or "longitude" in what.lower())
                 if not okk:
                     ctx.oracle_fail("%s at %r: %r, expected f0 + t*wrap(f1-f0) = %r (f0=%r, f1=%r, t=%r, period %r)" %
                                     (what, x, g, exp, f0, f1, float(t), fper), dict(rep, target_index=j))
